@@ -182,6 +182,7 @@ type BEvent struct {
 	Contract    string // io.Reader contract breach, if any
 	StatusSet   []string
 	termErr     error
+	sc          *SimConn // server endpoint of the connection (nil if unknown)
 }
 
 // SimBackend is the plan-driven, recording backend.
@@ -217,6 +218,12 @@ func (b *SimBackend) connPlan(conn int) *ConnBackendPlan {
 
 // begin allocates the record of a callback. This is the only place a callback
 // synchronises with other goroutines; after it, the callback touches only ev.
+func (b *SimBackend) simConn(conn int) *SimConn {
+	b.mu.Lock()
+	defer b.mu.Unlock()
+	return b.srvConns[conn]
+}
+
 func (b *SimBackend) begin(conn, sess int, kind, arg string) *BEvent {
 	now := time.Now().UnixNano()
 	written := 0
@@ -229,7 +236,7 @@ func (b *SimBackend) begin(conn, sess int, kind, arg string) *BEvent {
 		sc.wr.mu.Unlock()
 	}
 	b.mu.Lock()
-	ev := &BEvent{Seq: len(b.events), Conn: conn, Sess: sess, Kind: kind, Begin: now, Arg: arg, SrvWritten: written}
+	ev := &BEvent{Seq: len(b.events), Conn: conn, Sess: sess, Kind: kind, Begin: now, Arg: arg, SrvWritten: written, sc: sc}
 	key := kind + "/" + itoa(conn)
 	ev.KindIdx = b.kindCount[key]
 	b.kindCount[key]++
@@ -265,6 +272,11 @@ func (ev *BEvent) class() int {
 
 func (ev *BEvent) park(d Dur) {
 	if d > 0 {
+		if ev.sc != nil && ev.sc.owner != nil && !raceTier && smtp.VerifConnLocked(ev.sc.owner) {
+			// a callback made with the Conn's mutex held is not parked (the fake clock
+			// would freeze as soon as somebody waits for the mutex)
+			return
+		}
 		sleepClass(ev.class(), d)
 	}
 }
@@ -346,7 +358,7 @@ func (s *simSession) Reset() {
 
 func (s *simSession) Logout() error {
 	ev := s.b.begin(s.conn, s.id, "Logout", "")
-	if s.cp.ParkLogout > 0 && !underConnLock() {
+	if s.cp.ParkLogout > 0 && !connLocked(s.b.simConn(s.conn)) {
 		ev.park(s.cp.ParkLogout)
 	}
 	if s.cp.LogoutErr {
